@@ -174,6 +174,60 @@ LEAN_KEYWORDS = {"from", "at", "end", "fun", "in", "let", "do", "then", "else", 
                  "section", "variable", "import", "lower", "this", "some", "none", "true", "false", "Type", "Prop", "Sort"}
 
 
+def balanced(t):
+    d = 0
+    for ch in t:
+        if ch in "([{":
+            d += 1
+        elif ch in ")]}":
+            d -= 1
+            if d < 0:
+                return False
+    return d == 0
+
+
+def strip_outer(t):
+    """drop one pair of parentheses around the whole text"""
+    if t.startswith("(") and t.endswith(")") and not t.startswith("(←") and balanced(t[1:-1]):
+        return t[1:-1]
+    return t
+
+
+def atom(t):
+    """the text as a function argument"""
+    if " " not in t or ((t[0] + t[-1]) in ("()", "[]", "{}") and balanced(t[1:-1])) or (t.startswith('"') and t.endswith('"') and t.count('"') == 2):
+        return t
+    return "(%s)" % t
+
+
+def names_in(node):
+    """the variables an expression mentions (an alias whose key text mentions a variable dies when that variable changes)"""
+    return frozenset(n.id for n in ast.walk(node) if isinstance(n, ast.Name))
+
+
+def neg(t):
+    """Lean text of the negation of the Bool text t"""
+    if t.startswith("(!") and t.endswith(")"):
+        inner = t[2:-1]
+        depth = 0
+        ok = True
+        for ch in inner:
+            if ch == "(":
+                depth += 1
+            elif ch == ")":
+                depth -= 1
+                if depth < 0:
+                    ok = False
+                    break
+        if ok and depth == 0:
+            return inner
+    if t == "true":
+        return "false"
+    if t == "false":
+        return "true"
+    return "(!%s)" % t
+
+
 def lean_local(name):
     if name in LEAN_KEYWORDS:
         return name + "'"
@@ -462,7 +516,7 @@ class Fx:
                 k = self.expr(e.slice, base.ty.a[0])
                 self.monadic()
                 eq = A.eq_of(base.ty.a[0], self)
-                path = base.path.extend(("k", k.text, eq)) if base.path is not None and not k.raises else None
+                path = base.path.extend(("k", k.text, eq, names_in(e.slice))) if base.path is not None and not k.raises else None
                 return Val("(← PyDict.getItem %s %s %s)" % (eq, base.text, k.text), base.ty.a[1], path, True)
             self.fail("subscript on %r is outside the subset" % base.ty, e)
         if isinstance(e, ast.Call):
@@ -474,6 +528,9 @@ class Fx:
                     return v
             return Val(self.cond(e), BOOL)
         if isinstance(e, ast.IfExp):
+            st = self.static_cond(e.test)
+            if st is not None:
+                return self.expr0(e.body if st else e.orelse, want)
             c = self.cond(e.test)
             a = self.expr(e.body, want)
             b = self.expr(e.orelse, want or a.ty)
@@ -500,6 +557,20 @@ class Fx:
         if isinstance(e, (ast.ListComp, ast.SetComp)):
             return self.comprehension(e, want)
         self.fail("expression outside the subset: " + ast.unparse(e), e)
+
+    def static_cond(self, e):
+        """`isinstance(x, list)` & co. are decided by the spec type of x (a parameter of union type is translated once per
+        variant); -> True / False / None (not static)"""
+        if isinstance(e, ast.UnaryOp) and isinstance(e.op, ast.Not):
+            st = self.static_cond(e.operand)
+            return None if st is None else not st
+        if isinstance(e, ast.Call) and isinstance(e.func, ast.Name) and e.func.id == "isinstance" and len(e.args) == 2 \
+                and isinstance(e.args[1], ast.Name) and e.args[1].id in ("list", "dict", "set", "tuple"):
+            v = self.try_expr(e.args[0])
+            if v is None:
+                return None
+            return v.ty.k == {"list": "List", "dict": "Dict", "set": "Set", "tuple": "Tuple"}[e.args[1].id]
+        return None
 
     def try_expr(self, e, want=None):
         """translate, or None when it is not typable this way; state changes are rolled back on failure"""
@@ -579,7 +650,7 @@ class Fx:
                 k = self.expr(e.args[0], b.ty.a[0])
                 inner = b.ty.a[1]
                 got = "(PyDict.getD %s %s %s %s)" % (A.eq_of(b.ty.a[0], self), b.text, k.text, self.empty_of(inner, e))
-                p = b.path.extend(("k", k.text, "")) if b.path is not None else None
+                p = b.path.extend(("k", k.text, "", names_in(e.args[0]))) if b.path is not None else None
                 if inner.k == "Dict":
                     return "(PyDict.keys %s)" % got, inner.a[0], p, b.raises or k.raises
                 return got, inner.a[0], p, b.raises or k.raises
@@ -633,9 +704,13 @@ class Fx:
         if elt.raises:
             if conds or len(parts) > 1:
                 self.fail("a raising element under a filtered / nested comprehension is outside the subset", e)
-            body = "(← List.mapM (fun %s => do pure %s) %s)" % (pat, elt.text.replace("(← ", "(← "), src)
-            # `(← x)` inside the lambda's own `do` block is lifted there: evaluation order is that of the Python loop
-            text = body
+            t = elt.text
+            if t.startswith("(← ") and t.endswith(")") and t.count("(← ") == 1:
+                text = "(← List.mapM (fun %s => %s) %s)" % (pat, t[3:-1], src)
+            else:
+                # `(← x)` inside the lambda's own `do` block is lifted there: evaluation order is that of the Python loop
+                text = "(← List.mapM (fun %s => do pure %s) %s)" % (pat, t, src)
+            self.monadic()
         elif conds and elt_is_var:
             text = "(List.filter (fun %s => %s) %s)" % (pat, c, src)
         elif conds:
@@ -666,11 +741,11 @@ class Fx:
         if t.k in ("Num", "Nat"):
             return "(decide (%s ≠ 0))" % v.text
         if t.k == "List":
-            return "(!(List.isEmpty %s))" % v.text
+            return neg("(List.isEmpty %s)" % v.text)
         if t.k == "Dict":
-            return "(!(PyDict.isEmpty %s))" % v.text
+            return neg("(PyDict.isEmpty %s)" % v.text)
         if t.k == "Set":
-            return "(!(PySet.isEmpty %s))" % v.text
+            return neg("(PySet.isEmpty %s)" % v.text)
         if t.k == "Str":
             return "(!(String.isEmpty %s))" % v.text
         if t.k == "Opt" and (t.a[0].k in ("Tuple", "Class") or (t.a[0].k == "Opaque" and self.area.opaque[t.a[0].a[0]].get("always_truthy"))):
@@ -690,7 +765,7 @@ class Fx:
             op = " && " if isinstance(e.op, ast.And) else " || "
             return "(" + op.join(p.text for p in parts) + ")"
         if isinstance(e, ast.UnaryOp) and isinstance(e.op, ast.Not):
-            return "(!%s)" % self.cond(e.operand)
+            return neg(self.cond(e.operand))
         if isinstance(e, ast.Compare):
             if len(e.ops) != 1:
                 self.fail("chained comparison", e)
@@ -703,7 +778,7 @@ class Fx:
                     s = "(Option.isNone %s)" % lv.text
                 else:
                     s = "false"  # a value of a non-Optional spec type is never None
-                return s if isinstance(op, ast.Is) else "(!%s)" % s
+                return s if isinstance(op, ast.Is) else neg(s)
             if isinstance(op, (ast.In, ast.NotIn)):
                 if isinstance(r, (ast.Tuple, ast.List, ast.Set)):
                     lv = self.expr(l)
@@ -722,13 +797,13 @@ class Fx:
                         s = "(PyList.contains %s %s %s)" % (A.eq_of(rv.ty.a[0], self), rv.text, lv.text)
                     else:
                         self.fail("`in` against a value of type %r" % rv.ty, e)
-                return s if isinstance(op, ast.In) else "(!%s)" % s
+                return s if isinstance(op, ast.In) else neg(s)
             lv, rv = self.try_expr(l), self.try_expr(r)
             if lv is not None and rv is not None and isinstance(op, (ast.Eq, ast.NotEq)) and not (lv.ty.k in ("Num", "Nat") and rv.ty.k in ("Num", "Nat") and lv.ty != rv.ty):
                 if lv.ty != rv.ty:
                     self.fail("comparison of %r with %r" % (lv.ty, rv.ty), e)
                 s = self.eq_text(lv, rv, e)
-                return s if isinstance(op, ast.Eq) else "(!%s)" % s
+                return s if isinstance(op, ast.Eq) else neg(s)
             if lv is not None and rv is not None and lv.ty == NAT and rv.ty == NAT:
                 sym = {ast.LtE: "≤", ast.Lt: "<", ast.GtE: "≥", ast.Gt: ">"}[type(op)]
                 return "(decide (%s %s %s))" % (lv.text, sym, rv.text)
@@ -768,6 +843,9 @@ class Fx:
                 t, et, _p, r = self.iterable(e.args[0])
                 return Val("(List.length %s)" % t, NAT, None, r)
             if n == "isinstance" and len(e.args) == 2:
+                st = self.static_cond(e)
+                if st is not None:
+                    return Val("true" if st else "false", BOOL)
                 v = self.expr(e.args[0])
                 return Val(self.isinstance_text(v, e.args[1], e), BOOL, None, v.raises)
             if n == "cast" and len(e.args) == 2:
@@ -856,7 +934,7 @@ class Fx:
         r = self.fresh("sd")
         self.emit("let %s := PyDict.setdefault %s %s %s %s" % (r, eq, b.text, k.text, d.text))
         self.assign_path(b.path, "%s.2" % r, e)
-        return Val("%s.1" % r, b.ty.a[1], b.path.extend(("k", k.text, eq)))
+        return Val("%s.1" % r, b.ty.a[1], b.path.extend(("k", k.text, eq, names_in(e.args[0]))))
 
     def call_translated(self, fi, selfnode, argnodes, node):
         A = self.area
@@ -908,7 +986,14 @@ class Fx:
     # ---- mutation
     def kill_overlapping(self, path, except_var=None, why=""):
         for v in self.all_vars():
-            if v is except_var or v.dead:
+            if v.dead:
+                continue
+            if any(st[0] == "k" and path.root in st[3] for p in v.aliases for st in p.steps):
+                v.dead = "%s, which the key of its alias path mentions, changed at %s" % (path.root, why)
+                for s in self.kill_log:
+                    s.add(v)
+                continue
+            if v is except_var:
                 continue
             if any(p.overlaps(path) for p in v.aliases):
                 v.dead = "%s changed at %s" % (path, why)
@@ -949,7 +1034,7 @@ class Fx:
             if st[0] == "f":
                 text = "{ %s with %s := %s }" % (curs[i], st[2], text)
             else:
-                text = "PyDict.set %s %s %s %s" % (st[2], curs[i], st[1], text) if i == 0 else "(PyDict.set %s %s %s %s)" % (st[2], curs[i], st[1], text)
+                text = "(PyDict.set %s %s %s %s)" % (st[2], curs[i], st[1], atom(text))
                 if "(← " in curs[i]:
                     self.monadic()
         return text
@@ -960,7 +1045,7 @@ class Fx:
         text = self.build_update(path, newtext, node)
         if "(← " in text:
             self.monadic()
-        self.emit("%s := %s" % (lean_local(path.root), text))
+        self.emit("%s := %s" % (lean_local(path.root), strip_outer(text)))
         v.reassigned = True
         if v.is_param and path.root not in self.info.mutated:
             self.info.mutated.append(path.root)
@@ -970,7 +1055,7 @@ class Fx:
             for ap in list(v.aliases):
                 av = self.root_var(ap, node)
                 t = self.build_update(ap, lean_local(path.root), node)
-                self.emit("%s := %s" % (lean_local(ap.root), t))
+                self.emit("%s := %s" % (lean_local(ap.root), strip_outer(t)))
                 av.reassigned = True
                 if av.is_param and ap.root not in self.info.mutated:
                     self.info.mutated.append(ap.root)
@@ -979,9 +1064,10 @@ class Fx:
                 for ap2 in av.aliases:
                     self.fail("alias of an alias (%s -> %s -> %s) is outside the subset" % (path.root, ap, ap2), node)
 
-    def mutate_path(self, path, f, node):
-        """in-place change of the object at `path`: f(current value text) is the new value"""
-        self.assign_path(path, f("⟦cur⟧"), node, via="mutate")
+    def mutate_path(self, path, f, node, cur=None):
+        """in-place change of the object at `path`: f(current value text) is the new value.  `cur`: a text that is known to
+        denote the current value (the receiver as just evaluated), else it is re-read along the path"""
+        self.assign_path(path, f(cur if cur is not None else "⟦cur⟧"), node, via="mutate")
 
     # ---- statements
     def block(self, stmts, new_scope=True):
@@ -996,10 +1082,7 @@ class Fx:
                 s = stmts[i]
                 if term:
                     self.fail("unreachable statement", s)
-                consumed_rest = self.stmt(s, stmts[i + 1:])
-                if consumed_rest == "rest":
-                    return True if self._last_term else False
-                term = bool(consumed_rest)
+                term = bool(self.stmt(s, stmts[i + 1:]))
                 i += 1
             if len(self.lines) == n0:
                 self.emit("pure ()")
@@ -1007,10 +1090,6 @@ class Fx:
         finally:
             if new_scope:
                 self.scopes.pop()
-
-    def ret_text(self, val):
-        comps = ([] if self.ret == NONE else [val]) + [lean_local(p) for p in self.info.mutated_order_placeholder]
-        return comps
 
     def emit_return(self, valtext):
         # the tuple of mutated parameters is only known at the end: placeholder, patched in finish()
@@ -1103,7 +1182,7 @@ class Fx:
                     self.raising_subexpr(t)
                 eq = A.eq_of(b.ty.a[0], self)
                 self.monadic()
-                self.mutate_path(b.path, lambda cur: "(← PyDict.delItem %s %s %s)" % (eq, cur, k.text), s)
+                self.mutate_path(b.path, lambda cur: "(← PyDict.delItem %s %s %s)" % (eq, cur, k.text), s, cur=b.text)
             return False
         if isinstance(s, ast.Expr):
             return self.expr_stmt(s.value, s)
@@ -1141,6 +1220,7 @@ class Fx:
             self.emit("%s := %s" % (lean_local(name), val.text))
             v.reassigned = True
             v.dead = None
+            self.kill_overlapping(Path(name), except_var=v, why="line %s" % getattr(node, "lineno", "?"))
             if v.is_param:
                 self.fail("assignment to the parameter " + name, node)
             return False
@@ -1184,8 +1264,8 @@ class Fx:
             if k.raises:
                 self.raising_subexpr(tgt)
             eq = A.eq_of(b.ty.a[0], self)
-            self.mutate_path(b.path, lambda cur: "PyDict.set %s %s %s %s" % (eq, cur, k.text, val.text), node)
-            self.note_stored(val, b.path.extend(("k", k.text, eq)), node)
+            self.mutate_path(b.path, lambda cur: "(PyDict.set %s %s %s %s)" % (eq, atom(cur), k.text, atom(val.text)), node, cur=b.text)
+            self.note_stored(val, b.path.extend(("k", k.text, eq, names_in(tgt.slice))), node)
             return False
         self.fail("unsupported assignment target", node)
 
@@ -1213,7 +1293,7 @@ class Fx:
                     if b.path is None or len(ptys) != len(e.args):
                         self.fail("mutator %s: bad receiver or arguments" % m, node)
                     args = [self.expr(a, A.ty(t)) for a, t in zip(e.args, ptys)]
-                    self.mutate_path(b.path, lambda cur: tmpl.format(cur, *[a.text for a in args]), node)
+                    self.mutate_path(b.path, lambda cur: "(" + tmpl.format(atom(cur), *[atom(a.text) for a in args]) + ")", node, cur=b.text)
                     return False
             if b.path is None and m in ("append", "remove", "pop", "add", "clear", "discard"):
                 self.fail("mutating method %s on something that is not an lvalue" % m, node)
@@ -1221,12 +1301,12 @@ class Fx:
                 et = b.ty.a[0]
                 if m == "append" and len(e.args) == 1:
                     x = self.expr(e.args[0], et)
-                    self.mutate_path(b.path, lambda cur: "%s ++ [%s]" % (cur, x.text), node)
+                    self.mutate_path(b.path, lambda cur: "(%s ++ [%s])" % (cur, x.text), node, cur=b.text)
                     return False
                 if m == "remove" and len(e.args) == 1:
                     x = self.expr(e.args[0], et)
                     self.monadic()
-                    self.mutate_path(b.path, lambda cur: "(← PyList.remove %s %s %s)" % (A.eq_of(et, self), cur, x.text), node)
+                    self.mutate_path(b.path, lambda cur: "(← PyList.remove %s %s %s)" % (A.eq_of(et, self), cur, x.text), node, cur=b.text)
                     return False
                 if m == "clear" and not e.args:
                     self.assign_path(b.path, "[]", node, via="mutate")
@@ -1235,16 +1315,16 @@ class Fx:
                 et = b.ty.a[0]
                 if m == "add" and len(e.args) == 1:
                     x = self.expr(e.args[0], et)
-                    self.mutate_path(b.path, lambda cur: "PySet.add %s %s %s" % (A.eq_of(et, self), cur, x.text), node)
+                    self.mutate_path(b.path, lambda cur: "(PySet.add %s %s %s)" % (A.eq_of(et, self), cur, x.text), node, cur=b.text)
                     return False
                 if m == "discard" and len(e.args) == 1:
                     x = self.expr(e.args[0], et)
-                    self.mutate_path(b.path, lambda cur: "PySet.discard %s %s %s" % (A.eq_of(et, self), cur, x.text), node)
+                    self.mutate_path(b.path, lambda cur: "(PySet.discard %s %s %s)" % (A.eq_of(et, self), cur, x.text), node, cur=b.text)
                     return False
                 if m == "remove" and len(e.args) == 1:
                     x = self.expr(e.args[0], et)
                     self.monadic()
-                    self.mutate_path(b.path, lambda cur: "(← PySet.remove %s %s %s)" % (A.eq_of(et, self), cur, x.text), node)
+                    self.mutate_path(b.path, lambda cur: "(← PySet.remove %s %s %s)" % (A.eq_of(et, self), cur, x.text), node, cur=b.text)
                     return False
                 if m == "clear" and not e.args:
                     self.assign_path(b.path, "PySet.empty", node, via="mutate")
@@ -1256,12 +1336,12 @@ class Fx:
                 eq = A.eq_of(b.ty.a[0], self)
                 if m == "pop" and len(e.args) == 2 and isinstance(e.args[1], ast.Constant) and e.args[1].value is None:
                     k = self.expr(e.args[0], b.ty.a[0])
-                    self.mutate_path(b.path, lambda cur: "(PyDict.popD %s %s %s).2" % (eq, cur, k.text), node)
+                    self.mutate_path(b.path, lambda cur: "(PyDict.popD %s %s %s).2" % (eq, cur, k.text), node, cur=b.text)
                     return False
                 if m == "pop" and len(e.args) == 1:
                     k = self.expr(e.args[0], b.ty.a[0])
                     self.monadic()
-                    self.mutate_path(b.path, lambda cur: "(← PyDict.pop %s %s %s).2" % (eq, cur, k.text), node)
+                    self.mutate_path(b.path, lambda cur: "(← PyDict.pop %s %s %s).2" % (eq, cur, k.text), node, cur=b.text)
                     return False
                 if m == "setdefault" and len(e.args) == 2:
                     self.setdefault(b, e, eq)
@@ -1273,9 +1353,6 @@ class Fx:
             return False
         self.fail("expression statement outside the subset: " + ast.unparse(e), node)
 
-    def with_chain_alias(self, recv, node):
-        return None
-
     def if_stmt(self, s, rest):
         nt = self.none_test(s.test)
         if nt is not None:
@@ -1283,8 +1360,6 @@ class Fx:
             none_branch, some_branch = (s.body, s.orelse) if pos_is_none else (s.orelse, s.body)
             v = self.lookup(name)
             inner = v.ty.a[0]
-            if v.reassigned and False:
-                pass
             if self.terminates(none_branch) and not some_branch:
                 # `if x is None: <leave>`  ->  `let some x := x | <leave>`; the rest of the block sees x : T
                 ln = lean_local(name)
@@ -1583,8 +1658,14 @@ def gen_area(repo, spec, common, cenv):
             except Fail as f:
                 f.file = rel
                 raise
-            todo[(c["py"], ms["name"])] = (fn, ms, c["py"])
-            order.append((c["py"], ms["name"]))
+            key = (c["py"], ms["name"])
+            if key in todo:
+                # a second typing of a parameter of union type: its own Lean name, not callable from translated code
+                if not ms.get("lean"):
+                    raise Fail("second variant of %s needs a `lean` name" % ms["name"], fn, rel)
+                key = (c["py"], ms["name"] + "#" + ms["lean"])
+            todo[key] = (fn, ms, c["py"])
+            order.append(key)
     # callee-first order (source order otherwise); recursion is outside the subset
     deps = {k: calls_in(todo[k][0], todo[k][2], set(todo)) - {k} for k in order}
     for k in order:
